@@ -331,6 +331,50 @@ func gen(rng *mrand.Rand, i int, keys []echgen.KeyPair) input {
 		s, _ := hpkex.Setup(aead, k.Priv.PublicKey().Bytes(), echgen.Info(k.Config), nil)
 		echgen.SealInto(outer, -1, s, aead, k.ID, s.Enc, encoded)
 		in.client = outer.HelloRecord(0x0301)
+	case 9:
+		if rng.IntN(2) == 0 {
+			// authentic payload built for amplification: many ech_outer_extensions markers (or one marker with many references)
+			// that all point at one large outer extension
+			in.class = "authentic-amplification"
+			in.keys = []ech.Key{k.TLSKey()}
+			o := echgen.DefaultOpts()
+			o.MaxExtra = 0
+			inner := echgen.GenInner(rng, o)
+			big := tlswire.Ext{Type: 0x0015, Data: make([]byte, []int{1000, 12000, 40000}[rng.IntN(3)])}
+			outer := echgen.GenOuterBase(rng, k.PublicName, []tlswire.Ext{big}, -1)
+			si := inner.Clone()
+			si.SessionID = nil
+			switch rng.IntN(3) {
+			case 0: // K markers, one reference each
+				for n := []int{2, 60, 2000}[rng.IntN(3)]; n > 0; n-- {
+					si.Exts = append(si.Exts, tlswire.OuterExtensions([]uint16{0x0015}))
+				}
+			case 1: // one marker naming the same extension many times
+				refs := make([]uint16, 2+rng.IntN(125))
+				for j := range refs {
+					refs[j] = 0x0015
+				}
+				si.Exts = append(si.Exts, tlswire.OuterExtensions(refs))
+			default: // markers nested in number and references
+				for n := 1 + rng.IntN(30); n > 0; n-- {
+					si.Exts = append(si.Exts, tlswire.OuterExtensions([]uint16{0x0015, 0x0015}))
+				}
+			}
+			aead := aeads[rng.IntN(3)]
+			s, _ := hpkex.Setup(aead, k.Priv.PublicKey().Bytes(), echgen.Info(k.Config), nil)
+			echgen.SealInto(outer, -1, s, aead, k.ID, s.Enc, si.Body())
+			msg := outer.Message()
+			if len(msg) > 65536 {
+				msg = msg[:65536]
+			}
+			for len(msg) > 0 {
+				n := min(len(msg), 16384)
+				in.client = append(in.client, tlswire.Record(22, 0x0301, msg[:n])...)
+				msg = msg[n:]
+			}
+			break
+		}
+		fallthrough
 	default: // valid offer (so that the Conn stays in inspection mode) followed by hostile streams
 		in.class = "valid-then-hostile-stream"
 		in.keys = []ech.Key{k.TLSKey()}
